@@ -1,5 +1,4 @@
 import BridgeVerif.Lemmas.Imps
-import BridgeVerif.Translated.Imps
 /-!
 # C16 — IMP conversion is the official scale, odd and monotone, for every integer difference
 Property theorems only.  All statements quantify over every `d : Int`.
@@ -64,21 +63,6 @@ theorem imps_monotone (a b : Int) (h : a ≤ b) :
 /-- the two-score form is the scale applied to the sum -/
 theorem score_to_imp_is_sum (a b : Int) : scoreToImp a b = impsSpec (a + b) := by
   unfold scoreToImp; exact imps_is_scale _
-
-/-! ## The same, for the code AS TRANSLATED from bridge_env/score.py on this run
-(`Generated/PyCore.lean` executed by the MiniPy interpreter; symbolic execution, every integer) -/
-
-open Bridge.Py Bridge.Generated.PyCore in
-/-- THE TRANSLATED `point_difference_to_imps` returns the official scale for every integer -/
-theorem translated_imps_is_scale (d : Int) :
-    (Translated.fn n_point_difference_to_imps [.int d]).int? = some (impsSpec d) := by
-  rw [Translated.point_difference_to_imps_translated, imps_is_scale]
-
-open Bridge.Py Bridge.Generated.PyCore in
-/-- THE TRANSLATED `score_to_imp` is the scale applied to the sum -/
-theorem translated_score_to_imp_is_sum (a b : Int) :
-    (Translated.fn n_score_to_imp [.int a, .int b]).int? = some (impsSpec (a + b)) := by
-  rw [Translated.score_to_imp_translated, score_to_imp_is_sum]
 
 /-! non-vacuity / sanity: concrete values of the scale -/
 example : pointDifferenceToImps 430 = 10 ∧ pointDifferenceToImps 429 = 9 ∧
